@@ -248,7 +248,13 @@ fn oracle_for<P: PopLike>(c: &Case, probe: &mut Probe) -> Result<(), Fail> {
         max_threads = max_threads.max(threads);
         let old = generation.population().members();
         let old_size = ec_core::population::Population::size(generation.population());
-        ensure!(old_size == old.len(), "harness/size", "size() {} vs {} members", old_size, old.len());
+        ensure!(
+            old_size == old.len() && ec_core::population::Population::is_empty(generation.population()) == old.is_empty(),
+            "population/size",
+            "a {kind} population of {} members reports size() = {old_size} and is_empty() = {}",
+            old.len(),
+            ec_core::population::Population::is_empty(generation.population())
+        );
         let old_hash = hash64(&old);
         let start_call = shared.counter.load(Ordering::SeqCst);
         {
